@@ -145,3 +145,14 @@ def write_evidence(pid, tier, seed, level, coverage, assumptions, wall, nviol):
         json.dump(ev, f, indent=1, sort_keys=True, default=repr)
     os.replace(tmp, path)
     return path
+
+
+def account_sched(acc, case_key, ch):
+    """Model-checking bookkeeping for one explored execution: every choice point is a transition out of
+    a frontier state (case, multiset of choices taken so far by label, alternatives offered)."""
+    taken = []
+    for kind, label, n, c in ch.points:
+        acc.transitions += 1
+        acc.states.add(hk((case_key, tuple(sorted(taken)), kind, label)))
+        taken.append(repr(label[c]) if isinstance(label, tuple) and len(label) == n else f"{label}={c}")
+    acc.states.add(hk((case_key, tuple(sorted(taken)), "end")))
